@@ -588,10 +588,10 @@ var guardTable = []guardSpec{
 // l2Exceptions: one named function each, with the reason the access is
 // ordered by something a lockset analysis cannot see (confirmed by reading).
 var l2Exceptions = map[string]string{
-	"(*cache.RowCache).IndexExists|cache.RowCache.indexes":              "only called on server-side caches from the commit-time index check, serialised by OvsdbServer.txnMutex with every writer (Commit)",
-	"(*cache.TableCache).Populate|cache.RowCache.cache":                 "read under the exclusive TableCache.mutex; the only client-side writer path of RowCache.cache is Populate itself",
-	"(*cache.TableCache).Populate2|cache.RowCache.cache":                "read under the exclusive TableCache.mutex; the only client-side writer path of RowCache.cache is Populate2 itself",
-	"(*cache.TableCache).ApplyCacheUpdate|cache.TableCache.cache":       "server-side caches only; their table map is never replaced after NewTableCache (no Purge on the server)",
+	"(*cache.RowCache).IndexExists|cache.RowCache.indexes":                            "only called on server-side caches from the commit-time index check, serialised by OvsdbServer.txnMutex with every writer (Commit)",
+	"(*cache.TableCache).Populate|cache.RowCache.cache":                               "read under the exclusive TableCache.mutex; the only client-side writer path of RowCache.cache is Populate itself",
+	"(*cache.TableCache).Populate2|cache.RowCache.cache":                              "read under the exclusive TableCache.mutex; the only client-side writer path of RowCache.cache is Populate2 itself",
+	"(*cache.TableCache).ApplyCacheUpdate|cache.TableCache.cache":                     "server-side caches only; their table map is never replaced after NewTableCache (no Purge on the server)",
 	"(*client.ovsdbClient).handleDisconnectNotification|client.ovsdbClient.rpcClient": "first statement of the goroutine started by connect(): rpcClient can only be rewritten by a later connect, which requires this goroutine to have set it to nil first",
 }
 
@@ -847,9 +847,9 @@ func ruleL2(id string, pkgs ...string) func(p *Program, r *Reporter) {
 var syncCallbackExternal = map[string]bool{
 	"github.com/cenkalti/backoff/v4.Retry":       true,
 	"github.com/cenkalti/backoff/v4.RetryNotify": true,
-	"sort.Slice":                                 true,
-	"sort.SliceStable":                           true,
-	"(*sync.Once).Do":                            true,
+	"sort.Slice":       true,
+	"sort.SliceStable": true,
+	"(*sync.Once).Do":  true,
 }
 
 // paramOnlyCalled reports whether parameter idx of fn is only ever called
